@@ -15,12 +15,16 @@ from ._ops import one_flag
 
 
 def mech(flags) -> str:
+    if "derived_local_captures_property" in flags:
+        return ":derived_local_captures_property"
     return (":" + one_flag(flags)) if flags else ""
 
 
-def judge_roundtrip(vd, ev, a, res, witness_base, prop="C02"):
+def judge_roundtrip(vd, ev, a, res, witness_base, prop="C02", capture=None):
     x = a["x"]
-    flags = x.get("flags") or []
+    flags = list(x.get("flags") or [])
+    if capture:
+        flags = ["derived_local_captures_property"]  # document-level trigger (C18 mechanism), see _ops.derived_local_capture
     w = dict(witness_base, cls=a["cls"], value=a["value"], label=x.get("label"), flags=flags)
     ev.count("roundtrips")
     if res.get("action_exc"):
@@ -28,6 +32,8 @@ def judge_roundtrip(vd, ev, a, res, witness_base, prop="C02"):
         return False
     if res.get("exc"):
         ex = res["exc"]
+        if ex["type"] == "ModuleNotFoundError":
+            flags = []  # the cascade mechanism, whatever else the instance contains
         vd.violation(f"exception:{ex['type']}:{res['stage']}{mech(flags)}", f"{a['cls']}.{res['stage']} raised {ex['type']}: {ex['msg']} (instance label {x.get('label')})", w)
         return True
     bad = False
@@ -54,14 +60,14 @@ def main() -> int:
     jobs, info = [], {}
     for label, d in docs.matrix_docs():
         for le in (False, True):
-            j = run.job(d, want=[], plan={"fn": "models", "args": {"seed": seed(), "per_model": 14}}, cfg={"literal_enums": le})
+            j = run.job(d, want=["manifest"], plan={"fn": "models", "args": {"seed": seed(), "per_model": 14}}, cfg={"literal_enums": le})
             info[j["id"]] = {"label": "matrix:" + label, "cfg": {"literal_enums": le}, "features": {label.split(":")[1]}}
             jobs.append(j)
     n = 220 if quick else 5000
     for i in range(n):
         d, feats = docs.random_doc(("C02", seed(), i), hostile=[0, 0, 0.3][i % 3])
         cfg = {"literal_enums": i % 4 == 3}
-        j = run.job(d, want=[], plan={"fn": "models", "args": {"seed": seed() * 100003 + i, "per_model": 10 if quick else 16}}, cfg=cfg)
+        j = run.job(d, want=["manifest"], plan={"fn": "models", "args": {"seed": seed() * 100003 + i, "per_model": 10 if quick else 16}}, cfg=cfg)
         info[j["id"]] = {"label": f"random:{i}", "cfg": cfg, "features": feats}
         jobs.append(j)
     rs = run.map(jobs, timeout=300)
@@ -75,12 +81,16 @@ def main() -> int:
             run.ev.count("not_generated")
             continue
         wb = {"doc": j["doc"], "cfg": inf["cfg"], "case": inf["label"]}
+        from ._ops import derived_local_capture
+        capture = derived_local_capture(r.get("manifest") or {})
+        if capture:
+            run.ev.count("documents_with_derived_local_capture_trigger")
         nrt = 0
         for a, res in actions_results(r):
             if a["a"] != "roundtrip":
                 continue
             nrt += 1
-            bad = judge_roundtrip(run.vd, run.ev, a, res, wb)
+            bad = judge_roundtrip(run.vd, run.ev, a, res, wb, capture=capture)
             lab = (a["x"].get("label") or "").split(":")[0]
             run.ev.seen(("C02", tuple(sorted(f for f in inf["features"] if f.startswith(("kind:", "null:", "addl:", "union:")) or not f.count(":"))), lab, tuple(a["x"].get("flags") or [])))
             if not bad and lab in ("max", "branch") and inf["label"].startswith("random"):
